@@ -417,8 +417,17 @@ def write_table(w: W, m, t, ti):
     w.nl()
     w.depth += 1
     members = [('col', k) for k in range(len(t['columns']))]
-    for k in range(len(t['properties'])):
-        members.append(('prop', k))
+    props = [('prop', k) for k in range(len(t['properties']))]
+    pp = t.get('prop_pos', 'last')          # surface choice: where the arbitrary properties sit in the body (their order is kept)
+    if pp == 'first':
+        members = props + members
+    elif pp == 'middle':
+        h = len(members) // 2
+        members = members[:h] + props + members[h:]
+    elif pp == 'split' and len(props) > 1:
+        members = props[:1] + members + props[1:]
+    else:
+        members = members + props
     if t['note'] and not note_in_settings:
         members = place(members, ('note', 0), w.s.note_pos)
     if t['indexes']:
@@ -726,7 +735,7 @@ def write(m, style: Style = Style(), order=None) -> str:
     return ''.join(t.text for t in tokens(m, style, order))
 
 
-SURFACE_KEYS = ('default_src', 'null_explicit', 'force_paren', 'comment_above', '_written_inline', '_nrefs')
+SURFACE_KEYS = ('default_src', 'null_explicit', 'force_paren', 'comment_above', '_written_inline', '_nrefs', 'prop_pos')
 
 
 def expected(m):
